@@ -36,94 +36,150 @@ def run(c, chk):
     if len(loops) != 1:
         raise report.Broken('cfg_print_pff_indent: expected one loop, found %d' % len(loops))
     h = list(loops)[0]
-    iphi = None
+    # induction: some header phi advances by exactly +1 on every back edge, and it indexes the option array
+    ind_ok = False
     for ph in pr.blocks[h].phis():
-        if pr.var_names.get(ph.res) == 'i':
-            iphi = ph
-    if iphi is None:
-        raise report.Broken('cfg_print_pff_indent: induction variable not found')
-    env = {iphi.res: ('p', 'i')}
-    paths = ex.explore(pr, start=h, env=env, stop=[h])
+        inc = [v for v, l in ph.incoming if l in loops[h]]
+        if inc and all(v.kind == 'reg' and pr.defs.get(v.name) is not None and pr.defs[v.name].op == 'add'
+                       and pr.defs[v.name].ops[0].kind == 'reg' and pr.defs[v.name].ops[0].name == ph.res
+                       and pr.defs[v.name].ops[1].kind == 'int' and pr.defs[v.name].ops[1].ival == 1 for v in inc):
+            start = [v for v, l in ph.incoming if l not in loops[h]]
+            if all(v.kind == 'int' and v.ival == 0 for v in start):
+                ind_ok = True
+    if not ind_ok:
+        chk.fail('R19.1', 'induction', c.where(pr), 'the option loop has no index that starts at 0 and advances by exactly 1 on every back edge: options are skipped or repeated')
+    # whole-function exploration, the loop unrolled over the first options: hoisted and in-loop filter
+    # selection look the same
+    exw = sym.Explorer(c.modules, max_visits=4, mod_sets=c.mod_sets, max_paths=200000)
     n = 0
-    good = True
-    for p in paths:
-        if p.end == 'cut':
+    good = ind_ok
+    for p in exw.explore(pr):
+        if p.end != 'ret':
             continue
         n += 1
-        calls = [e for e in p.events if e.kind == 'call' and e.name == 'cfg_opt_print_pff_indent']
-        filt = [e for e in p.events if e.kind == 'call' and e.name.startswith('indirect:')]
         conds = [('' if t else '!') + pm.describe_cond(cn) for cn, t, _ in p.assume]
         own = 'cfg->pff' in conds
         inherited = ('!cfg->pff' in conds) and ('fb_pff' in conds)
         nofilter = ('!cfg->pff' in conds) and ('!fb_pff' in conds)
-        if p.end == 'ret':
-            if calls or filt:
-                good = False
-                chk.fail('R19.1', 'print-after-end', c.where(pr), 'the loop prints after it has seen the end marker')
+        calls = [e for e in p.events if e.kind == 'call' and e.name == 'cfg_opt_print_pff_indent']
+        filt = [e for e in p.events if e.kind == 'call' and e.name.startswith('indirect:')]
+        visited = []
+        for cn, t, _ in p.assume:
+            d = pm.describe_cond(cn)
+            mm = None
+            if d.endswith('.name') or d.endswith('->name'):
+                visited.append((d, t))
+        nvis = sum(1 for d, t in visited if t)
+        if not calls and not filt:
             continue
-        # back edge
-        nxt = p.next.get('i')
-        if nxt != ('bin', 'add', ('p', 'i'), ('c', 1)):
+        if not (own or inherited or nofilter):
             good = False
-            chk.fail('R19.1', 'induction', c.where(pr), 'the option index advances by %s instead of i+1: options are skipped or repeated' % sym.render(nxt))
-            continue
-        if len(calls) > 1:
-            good = False
-            chk.fail('R19.1', 'printed-twice', c.where(calls[1].ins), 'an option is printed twice in one iteration')
-            continue
-        verdict = None
-        if filt:
-            fe = filt[0]
-            for cn, t, _ in p.assume:
-                if cn[0] == 'icmp' and fe.res in (cn[2], cn[3]) and sym.C0 in (cn[2], cn[3]):
-                    verdict = ((cn[1] == 'ne') == t)
-            # the filter sees (cfg, &cfg->opts[i])
-            if not (fe.args[0] == ('p', 'cfg') and sym.render(fe.args[1]) in ('&cfg->opts[i]',)):
-                good = False
-                chk.fail('R19.1', 'filter-args', c.where(fe.ins), 'the filter is asked about %s instead of the option being visited' % sym.render(fe.args[1]))
+            chk.fail('R19.2', 'filter-selection', c.where(pr), 'the print loop does not select its filter from the context\'s own filter and the inherited one (%s)' % ' && '.join(conds[:4]))
+            break
+        def eff_at(e):
+            own_ = inh_ = None
+            for cn, t, _ in p.assume[:e.seq]:
+                d = pm.describe_cond(cn)
+                if d == 'cfg->pff':
+                    own_ = t
+                elif d == 'fb_pff':
+                    inh_ = t
+            if own_:
+                return 'cfg->pff'
+            if own_ is False and inh_:
+                return 'fb_pff'
+            if own_ is False and inh_ is False:
+                return None
+            return '?'
+        bykey = {}
+        order = []
+        for e in p.events:
+            if e.kind != 'call':
                 continue
-            # which filter is called: own if set, else the inherited one
-            called = fe.addr
-            src = sym.render(called) if called else '?'
-            if own and src != 'cfg->pff':
+            if e.name.startswith('indirect:'):
+                k = sym.render(e.args[1]) if len(e.args) > 1 else '?'
+                bykey.setdefault(k, {'filter': [], 'print': []})['filter'].append(e)
+                if k not in order:
+                    order.append(k)
+                eff = eff_at(e)
+                if eff == '?':
+                    eff = sym.render(e.addr)
+                if eff is None:
+                    good = False
+                    chk.fail('R19.1', 'filter-null-call', c.where(e.ins), 'a filter is called although neither the context nor its parent has one')
+                elif sym.render(e.addr) != eff:
+                    good = False
+                    chk.fail('R19.2', 'filter-choice', c.where(e.ins), 'the filter applied is %s, expected the effective filter %s (own filter if set, else the inherited one)' % (sym.render(e.addr), eff))
+                elif e.args[0] != ('p', 'cfg'):
+                    good = False
+                    chk.fail('R19.1', 'filter-args', c.where(e.ins), 'the filter is not called with the context being printed')
+            elif e.name == 'cfg_opt_print_pff_indent':
+                k = sym.render(e.args[0])
+                bykey.setdefault(k, {'filter': [], 'print': []})['print'].append(e)
+                if k not in order:
+                    order.append(k)
+                a2 = sym.render(e.args[2])
+                eff = eff_at(e)
+                if eff == '?':
+                    good = False
+                    chk.fail('R19.2', 'filter-selection', c.where(e.ins), 'an option is printed before the effective filter has been determined')
+                    break
+                if not (a2 == (eff or '0') or (eff is None and a2 in ('fb_pff', 'cfg->pff', '0'))):
+                    good = False
+                    chk.fail('R19.2', 'filter-handed-down', c.where(e.ins), 'the per-option printer receives the filter %s, expected the effective filter %s' % (a2, eff or 'NULL'))
+                if e.args[1] != ('p', 'fp') or e.args[3] != ('p', 'indent'):
+                    good = False
+                    chk.fail('R19.1', 'printer-args', c.where(e.ins), 'the per-option printer is not called with (option, fp, filter, indent)')
+        if not good:
+            break
+        # per visited option
+        want_keys = ['cfg->opts' if i == 0 else '&cfg->opts[%d]' % i for i in range(len(order))]
+        if order != want_keys[:len(order)]:
+            good = False
+            chk.fail('R19.1', 'visit-order', c.where(pr), 'options are visited as %s, expected the array order %s' % (order, want_keys[:len(order)]))
+            break
+        for k in order:
+            ent = bykey[k]
+            if len(ent['print']) > 1:
                 good = False
-                chk.fail('R19.2', 'filter-choice', c.where(fe.ins), 'a context with its own print filter applies %s instead' % src)
-                continue
-            if inherited and src != 'fb_pff':
+                chk.fail('R19.1', 'printed-twice', c.where(ent['print'][1].ins), 'option %s is printed twice' % k)
+                break
+            anyev = (ent['filter'] + ent['print'])[0]
+            eff = eff_at(anyev)
+            if eff not in (None, '?'):
+                if len(ent['filter']) != 1:
+                    good = False
+                    chk.fail('R19.2', 'filter-ignored', c.where(pr), 'option %s is not shown to the effective filter exactly once (%d calls)' % (k, len(ent['filter'])))
+                    break
+                fe = ent['filter'][0]
+                verdict = None
+                for cn, t, _ in p.assume:
+                    if cn[0] == 'icmp' and fe.res in (cn[2], cn[3]) and sym.C0 in (cn[2], cn[3]):
+                        verdict = ((cn[1] == 'ne') == t)
+                if verdict is True and ent['print']:
+                    good = False
+                    chk.fail('R19.1', 'filtered-printed', c.where(ent['print'][0].ins), 'an option the filter rejected is printed anyway')
+                    break
+                if verdict is False and not ent['print']:
+                    good = False
+                    chk.fail('R19.1', 'unfiltered-skipped', c.where(pr), 'an option the effective filter accepts is not printed')
+                    break
+            elif not ent['print']:
                 good = False
-                chk.fail('R19.2', 'filter-inherit', c.where(fe.ins), 'a context without its own filter does not apply the inherited one (applies %s)' % src)
-                continue
-        if nofilter and filt:
+                chk.fail('R19.1', 'unfiltered-skipped', c.where(pr), 'without any filter, option %s is not printed' % k)
+                break
+        if not good:
+            break
+        # every visited option was handled (no option silently skipped)
+        if nvis > len(order):
             good = False
-            chk.fail('R19.1', 'filter-null-call', c.where(filt[0].ins), 'a NULL filter is called')
-            continue
-        if (own or inherited) and not filt:
-            good = False
-            chk.fail('R19.2', 'filter-ignored', c.where(pr), 'an effective filter exists (%s) but is not consulted' % ('own' if own else 'inherited'))
-            continue
-        if verdict is True:
-            if calls:
-                good = False
-                chk.fail('R19.1', 'filtered-printed', c.where(calls[0].ins), 'an option the filter rejected is printed anyway')
-            continue
-        if not calls:
-            good = False
-            chk.fail('R19.1', 'unfiltered-skipped', c.where(pr), 'an option the effective filter accepts (or no filter) is not printed (%s)' % ' && '.join(conds))
-            continue
-        ce = calls[0]
-        if sym.render(ce.args[0]) != '&cfg->opts[i]' or ce.args[1] != ('p', 'fp') or ce.args[3] != ('p', 'indent'):
-            good = False
-            chk.fail('R19.1', 'printer-args', c.where(ce.ins), 'the per-option printer gets (%s, %s, ., %s) instead of (&cfg->opts[i], fp, ., indent)'
-                     % tuple(sym.render(a) for a in (ce.args[0], ce.args[1], ce.args[3])))
-            continue
-        want = 'cfg->pff' if own else ('fb_pff' if inherited else '0')
-        if sym.render(ce.args[2]) != want and not (nofilter and ce.args[2] == ('p', 'fb_pff')):
-            good = False
-            chk.fail('R19.2', 'filter-handed-down', c.where(ce.ins), 'the per-option printer receives the filter %s, expected the effective filter %s' % (sym.render(ce.args[2]), want))
+            chk.fail('R19.1', 'option-skipped', c.where(pr), '%d options were seen by the loop but only %d were filtered/printed' % (nvis, len(order)))
+            break
     if good:
-        chk.ok('R19.1', 'option loop: %d residual paths' % n, 'index +1 on every back edge; printed exactly when the effective filter is NULL or returns 0', sample=True)
+        chk.ok('R19.1', 'option loop: %d whole-function paths (loop unrolled over the first options)' % n,
+               'index 0,1,2,.. in order; each option printed exactly when the effective filter is NULL or returns 0', sample=True)
         chk.ok('R19.2', 'effective filter', 'own filter if set, else the inherited one; the same value is handed to the per-option printer', sample=True)
-    chk.floor('R19.1 loop paths', n, 5)
+    chk.floor('R19.1 loop paths', n, 3)
     for fname in ('cfg_print', 'cfg_print_indent'):
         f = c.need(fname)
         calls = list(f.calls('cfg_print_pff_indent'))
